@@ -27,6 +27,7 @@ import (
 	"time"
 
 	"github.com/influxdata/influxdb/v2/models"
+	"github.com/influxdata/influxdb/v2/pkg/limiter"
 	"github.com/influxdata/influxdb/v2/pkg/verifhook"
 	"github.com/influxdata/influxdb/v2/tsdb"
 	"github.com/influxdata/influxdb/v2/tsdb/cursors"
@@ -62,6 +63,7 @@ type jop struct {
 	Err string     `json:"err,omitempty"`
 }
 type jcase struct {
+	Kind string  `json:"kind,omitempty"` // "" = free-running goroutines; "ec" = engine-driven compaction held in Replace while two deletes arrive
 	Cold bool    `json:"cold,omitempty"` // no warm-up write: the first writes race with Cache.init (C09's finding)
 	Plan [][]jop `json:"plan"`           // per goroutine: the ops it will issue
 	Hist []jop   `json:"hist,omitempty"` // observed history
@@ -118,6 +120,7 @@ func openShared() {
 	}
 	gopt = tsdb.NewEngineOptions()
 	gopt.IndexVersion = tsdb.TSI1IndexName
+	gopt.CompactionLimiter = limiter.NewFixed(20) // the engine's own compaction loop needs one (kind ec)
 	ids := tsdb.NewSeriesIDSet()
 	gopt.SeriesIDSets = seriesIDSets([]*tsdb.SeriesIDSet{ids})
 	gidx = tsdb.MustOpenIndex(1, "db0", filepath.Join(groot, "index"), ids, gsfile, gopt)
@@ -427,13 +430,19 @@ func runCase(w *vh.W, c *jcase) {
 	defer os.RemoveAll(root)
 	os.MkdirAll(filepath.Join(root, "data"), 0o777)
 	e := tsm1.NewEngine(1, gidx, filepath.Join(root, "data"), filepath.Join(root, "wal"), gsfile, gopt).(*tsm1.Engine)
-	e.SetEnabled(false)
+	if c.Kind != "ec" {
+		e.SetEnabled(false)
+	}
 	if err := e.Open(context.Background()); err != nil {
 		fmt.Fprintln(os.Stderr, "open:", err)
 		os.Exit(3)
 	}
 	ensure(e, []int{0, 1})
 	atomic.StoreInt64(&clock, 0)
+	if c.Kind == "ec" {
+		judge(w, c, runEC(w, e, c))
+		return
+	}
 	// schedule perturbation at the hook points inside snapshot / replace / delete
 	var pert uint64
 	verifhook.Set(func(string) {
@@ -524,6 +533,94 @@ func runCase(w *vh.W, c *jcase) {
 	if len(panics) > 0 && failure == "" {
 		failure = strings.Join(panics, "; ")
 	}
+	judge(w, c, failure)
+}
+
+// runEC: the engine's OWN compaction loop (compactions enabled) runs a forced full compaction; the
+// compaction goroutine is held at the verif hook point inside FileStore.Replace (after it has read its
+// inputs and written its output, before the file set is swapped) while two deletes arrive one after the
+// other; then it is released. Plan[0] = sequential set-up (writes + snapshots), Plan[1] / Plan[2] = the two
+// deletes, Plan[3] = sequential reads (and writes) afterwards. The observed history is judged like any other.
+func runEC(w *vh.W, e *tsm1.Engine, c *jcase) (failure string) {
+	var closed atomic.Bool
+	var mu sync.Mutex
+	c.Hist = nil
+	do := func(g int, op jop) {
+		op.G = g
+		if p := vh.Guard(func() { exec(e, &op, &closed) }); p != "" && failure == "" {
+			failure = fmt.Sprintf("%s: panic: %s", op.Op, p)
+		}
+		mu.Lock()
+		c.Hist = append(c.Hist, op)
+		mu.Unlock()
+	}
+	for _, op := range c.Plan[0] {
+		do(0, op)
+	}
+	var armed atomic.Bool
+	inReplace := make(chan struct{}, 1)
+	release := make(chan struct{})
+	verifhook.Set(func(name string) {
+		if name == "tsm1.replace:after-rename" && armed.CompareAndSwap(true, false) {
+			inReplace <- struct{}{}
+			select {
+			case <-release:
+			case <-time.After(20 * time.Second):
+			}
+		}
+	})
+	defer verifhook.Set(nil)
+	if err := e.ScheduleFullCompaction(); err != nil && failure == "" {
+		failure = "ScheduleFullCompaction: " + err.Error()
+	}
+	armed.Store(true)
+	held := false
+	select {
+	case <-inReplace:
+		held = true
+	case <-time.After(5 * time.Second):
+		armed.Store(false)
+	}
+	w.Count("ec_compaction_held_in_replace", fmt.Sprint(held))
+	var wg sync.WaitGroup
+	for g := 1; g <= 2; g++ {
+		wg.Add(1)
+		go func(g int) {
+			defer wg.Done()
+			for _, op := range c.Plan[g] {
+				do(g, op)
+			}
+		}(g)
+		time.Sleep(60 * time.Millisecond)
+	}
+	time.Sleep(150 * time.Millisecond)
+	close(release)
+	doneCh := make(chan struct{})
+	go func() { wg.Wait(); close(doneCh) }()
+	select {
+	case <-doneCh:
+	case <-time.After(60 * time.Second):
+		return "TIMEOUT: deletes did not complete within 60 s of the compaction being released (deadlock?)"
+	}
+	for _, op := range c.Plan[3] {
+		do(3, op)
+	}
+	closed.Store(true)
+	cerr := make(chan error, 1)
+	go func() { cerr <- e.Close(false) }()
+	select {
+	case err := <-cerr:
+		if err != nil && failure == "" {
+			failure = "Close: " + err.Error()
+		}
+	case <-time.After(60 * time.Second):
+		failure = "TIMEOUT: Close did not return within 60 s (deadlock?)"
+	}
+	sort.Slice(c.Hist, func(i, j int) bool { return c.Hist[i].Inv < c.Hist[j].Inv })
+	return failure
+}
+
+func judge(w *vh.W, c *jcase, failure string) {
 	// unexpected errors
 	sig := ""
 	var rel []jop
@@ -639,8 +736,54 @@ func runCase(w *vh.W, c *jcase) {
 	}
 }
 
+// genEC: see runEC
+func genEC(w *vh.W) jcase {
+	r := w.Rng
+	c := jcase{Kind: "ec", Plan: make([][]jop, 4)}
+	var val int64
+	for f, nf := 0, 2+r.IntN(2); f < nf; f++ {
+		op := jop{Op: "write"}
+		for j, k := 0, 2+r.IntN(4); j < k; j++ {
+			val++
+			op.Points = append(op.Points, jpoint{Series: r.IntN(nSeries), Field: r.IntN(nFields), T: int64(r.IntN(8)), V: val})
+		}
+		c.Plan[0] = append(c.Plan[0], op, jop{Op: "snapshot"})
+	}
+	rng := func() (int64, int64) {
+		if r.IntN(2) == 0 {
+			return models.MinNanoTime, models.MaxNanoTime
+		}
+		lo, hi := int64(r.IntN(8)), int64(r.IntN(8))
+		if lo > hi {
+			lo, hi = hi, lo
+		}
+		return lo, hi
+	}
+	sA := r.IntN(nSeries)
+	sB := sA
+	if r.IntN(3) > 0 {
+		sB = 1 - sA
+	}
+	lo, hi := rng()
+	c.Plan[1] = []jop{{Op: "delete", Series: []int{sA}, Lo: lo, Hi: hi}}
+	lo, hi = rng()
+	c.Plan[2] = []jop{{Op: "delete", Series: []int{sB}, Lo: lo, Hi: hi}}
+	for k := 0; k < nSeries*nFields; k++ {
+		c.Plan[3] = append(c.Plan[3], jop{Op: "read", Key: k, Lo: models.MinNanoTime, Hi: models.MaxNanoTime, Asc: r.IntN(2) == 0})
+	}
+	if r.IntN(2) == 0 {
+		val++
+		c.Plan[3] = append(c.Plan[3], jop{Op: "write", Points: []jpoint{{Series: r.IntN(nSeries), Field: r.IntN(nFields), T: int64(r.IntN(8)), V: val}}},
+			jop{Op: "read", Key: r.IntN(nSeries * nFields), Lo: models.MinNanoTime, Hi: models.MaxNanoTime, Asc: true})
+	}
+	return c
+}
+
 func gen(w *vh.W) jcase {
 	r := w.Rng
+	if r.IntN(12) == 0 {
+		return genEC(w)
+	}
 	var c jcase
 	ng := 3 + r.IntN(3)
 	c.Cold = r.IntN(10) == 0
@@ -690,7 +833,7 @@ func gen(w *vh.W) jcase {
 func main() {
 	openShared()
 	w := vh.New("C39", "From Verif Require Import Base.Prelude Model.C01.", "case", "check")
-	w.Rule = "3-5 goroutines x 4-8 ops on one real tsm1.Engine: value-unique writes (1-3 points over 2 series x 2 fields x 8 timestamps), range reads asc/desc, WriteSnapshot, planner-driven compactions (FindGenerations/PlanLevel/PlanOptimize + CompactFast|CompactFull(ppb=3) + Replace + Release), Backup, in 1/3 of the runs series range deletes; then Close racing with two readers; schedule perturbed at the verif hook points. The observed history is linearised (search in Go) and the linearisation is judged in Coq against the proved sequential specification. Non-trivial: >=8 relevant ops and >=2 non-empty reads. Distinct: distinct linearised histories."
+	w.Rule = "3-5 goroutines x 4-8 ops on one real tsm1.Engine: value-unique writes (1-3 points over 2 series x 2 fields x 8 timestamps), range reads asc/desc, WriteSnapshot, planner-driven compactions (FindGenerations/PlanLevel/PlanOptimize + CompactFast|CompactFull(ppb=3) + Replace + Release), Backup, in 1/3 of the runs series range deletes; then Close racing with two readers; schedule perturbed at the verif hook points. The observed history is linearised (search in Go) and the linearisation is judged in Coq against the proved sequential specification. Non-trivial: >=8 relevant ops and >=2 non-empty reads. One case in twelve is of kind ec: the engine's own compaction loop runs a forced full compaction that is held at the hook point inside FileStore.Replace while two deletes arrive one after the other, then released, then every key is read. Distinct: distinct linearised histories."
 	var rc jcase
 	if w.ReplayCase(&rc) {
 		runCase(w, &rc)
